@@ -32,7 +32,7 @@ def run_scenario(lines, release):
 
 def observe(out):
     """Parse replayer output into a dict."""
-    obs = {"results": [], "cells": [], "depth": None, "raw": out[-1500:], "dumps": []}
+    obs = {"results": [], "cells": [], "depth": None, "raw": out[-1500:], "dumps": [], "raw_lines": out.splitlines()}
     ndump = 0
     for ln in out.splitlines():
         if ln.startswith("DEPTH "):
@@ -77,6 +77,22 @@ def contradicts(expect, obs):
         elif e[0] == "last_result_in":
             if last is None or not any(last.startswith(p) for p in e[1]):
                 why.append("result %r not in %s" % (last, e[1]))
+        elif e[0] == "lex_spec":
+            from e2.lexspec import check_lex
+            text = bytes.fromhex(e[1]).decode() if e[1] != "-" else ""
+            if any(r.startswith("panic") for r in obs["results"]):
+                why.append("lexer panicked on %r" % text)
+            else:
+                why += check_lex(text, obs["raw_lines"])
+        elif e[0] == "tokloc_spec":
+            from e2.lexspec import token_location
+            text = bytes.fromhex(e[2]).decode()
+            exp = token_location(text, int(e[1]))
+            got = [l for l in obs["raw_lines"] if l.startswith("TOKLOC ")]
+            if any(r.startswith("panic") for r in obs["results"]):
+                why.append("token_location panicked")
+            elif not got or got[0] != "TOKLOC %d %d %d %d" % exp:
+                why.append("token_location gave %r, expected line %d col %d line-bytes %d..%d" % ((got[0] if got else None,) + exp))
         elif e[0] == "top_in":
             top = obs["cells"][0] if obs["cells"] else None
             if top is None or not any(top[0] == t and top[1] == x for t, x in e[1]):
